@@ -185,6 +185,38 @@ fn verif_serve_loopback()
             other => wrong(&format!("/files/{}", name), format!("hash cached by a build that ran while the server was up answered {:?}", other.map(|x| x.0)), &mut bad),
         }
     }
+    /*  a LONG history: one rule built from many different source states (its history file grows with every build and is never
+        pruned); every pair ever recorded is still served */
+    {
+        let rounds : usize = std::env::var("VERIF_SERVE_ROUNDS").ok().and_then(|s| s.parse().ok()).unwrap_or(900);
+        let stanza = rules.iter().find(|r| r.targets.iter().any(|t| t == "stanza.txt")).unwrap();
+        let rule_name = stanza.get_ticket().human_readable();
+        let mut recorded : Vec<(String, String)> = vec![];
+        for i in 0..rounds
+        {
+            system.time_passes(1);
+            let verse = format!("verse number {}\n", i);
+            write_str_to_file(&mut system, "verse.txt", &verse).unwrap();
+            if build(system.clone(), &mut EmptyPrinter::new(), BuildParams::from_all(".ruler".to_string(), vec!["build.rules".to_string()], None, Some("stanza.txt".to_string()))).is_err() { wrong("(long history)", format!("build number {} failed", i), &mut bad); break; }
+            let mut f = TicketFactory::new(); f.input_ticket(TicketFactory::from_str(&verse).result());
+            recorded.push((f.result().human_readable(), hash_name(verse.as_bytes())));
+        }
+        for (sources_name, want) in recorded.iter()
+        {
+            cases += 1;
+            let req = format!("/rules/{}/{}", rule_name, sources_name);
+            match get(port, &req)
+            {
+                Some((200, body)) =>
+                {
+                    let text = String::from_utf8_lossy(&body).to_string();
+                    let lines : Vec<String> = text.split('\n').filter(|l| !l.is_empty()).map(|l| l.to_string()).collect();
+                    if lines != vec![want.clone()] { wrong(&req, format!("long history: recorded target hashes {:?}, expected {:?}", lines, want), &mut bad); }
+                },
+                other => wrong(&req, format!("long history ({} builds of one rule): a recorded pair answered {:?}", rounds, other.map(|x| x.0)), &mut bad),
+            }
+        }
+    }
     /*  the server keeps running */
     cases += 1;
     match get(port, &format!("/files/{}", good)) { Some((200, _)) => {}, other => wrong("(after all the above)", format!("a good request answered {:?}", other.map(|x| x.0)), &mut bad) }
